@@ -173,6 +173,7 @@ class Driver:
         self.preamble = []
 
     def add_schema(self, info):
+        self.last_info = info
         if info.lean_id is None or info not in self.schemas:
             info.lean_id = len(self.schemas)
             self.schemas.append(info)
@@ -241,6 +242,12 @@ class Ctx:
     def violation(self, kind, what, replay):
         """a concrete failing input against the real code (or a broken obligation w/o witness)"""
         replay = dict(replay)
+        li = getattr(self.driver, "last_info", None)
+        if replay.get("schema") == "random" and li is not None and li.name == "random":
+            try:
+                replay["schema_spec"] = json.loads(json.dumps(li.schema.spec, default=str))
+            except Exception:  # noqa: BLE001
+                pass
         replay["property"] = self.prop
         replay["kind"] = kind
         replay["what"] = what
